@@ -257,3 +257,361 @@ def expand_locals(func, expr, depth=3):
         cur = ast.fix_missing_locations(Sub().visit(cur))
         cur = ast.parse(txt(cur), mode="eval").body
     return txt(cur)
+
+
+# ----------------------------------------------------------------------
+# canonical forms of a few equivalent idioms (rules are written against the
+# canonical one; these rewrites are semantics-preserving for the analyses)
+
+def _stores(nodes):
+    out = set()
+    for s in nodes:
+        for n in ast.walk(s):
+            if isinstance(n, ast.Name) and isinstance(n.ctx, (ast.Store,
+                                                              ast.Del)):
+                out.add(n.id)
+    return out
+
+
+class _Subst(ast.NodeTransformer):
+    """replace loads of names by expressions"""
+
+    def __init__(self, mapping):
+        self.m = mapping
+
+    def visit_Name(self, node):
+        if isinstance(node.ctx, ast.Load) and node.id in self.m:
+            return copy.deepcopy(self.m[node.id])
+        return node
+
+    def visit_FunctionDef(self, node):
+        return node
+
+    visit_Lambda = visit_FunctionDef
+
+
+def _pure_ref(e):
+    """name or attribute chain (no calls/subscripts)"""
+    while isinstance(e, ast.Attribute):
+        e = e.value
+    return isinstance(e, ast.Name)
+
+
+def _sub(value, *idx):
+    for i in idx:
+        value = ast.Subscript(value=value, slice=i, ctx=ast.Load())
+    return value
+
+
+class _DictIter(ast.NodeTransformer):
+    """``for v in D.values()`` / ``for k, v in D.items()`` ->
+    ``for k in D`` with ``v`` replaced by ``D[k]`` (tuple targets
+    position-wise)"""
+
+    def __init__(self):
+        self.n = 0
+
+    def visit_FunctionDef(self, node):
+        if getattr(self, "_top", None) is None:
+            self._top = node
+            self.generic_visit(node)
+        return node
+
+    def visit_For(self, node):
+        self.generic_visit(node)
+        it = node.iter
+        if not (isinstance(it, ast.Call) and not it.args and not it.keywords
+                and isinstance(it.func, ast.Attribute)
+                and it.func.attr in ("values", "items")
+                and _pure_ref(it.func.value)):
+            return node
+        d = it.func.value
+        tgt = node.target
+        if it.func.attr == "items":
+            if not (isinstance(tgt, ast.Tuple) and len(tgt.elts) == 2
+                    and isinstance(tgt.elts[0], ast.Name)):
+                return node
+            key, val = tgt.elts
+        else:
+            self.n += 1
+            key, val = ast.Name(id=f"_key{self.n}", ctx=ast.Store()), tgt
+        mapping = {}
+        base = _sub(copy.deepcopy(d), ast.Name(id=key.id, ctx=ast.Load()))
+        if isinstance(val, ast.Name):
+            mapping[val.id] = base
+        elif isinstance(val, ast.Tuple) and all(
+                isinstance(e, ast.Name) for e in val.elts):
+            for i, e in enumerate(val.elts):
+                mapping[e.id] = _sub(copy.deepcopy(base),
+                                     ast.Constant(value=i))
+        else:
+            return node
+        if _stores(node.body + node.orelse) & (set(mapping) | {key.id}):
+            return node
+        sub = _Subst(mapping)
+        node.target = ast.Name(id=key.id, ctx=ast.Store())
+        node.iter = copy.deepcopy(d)
+        node.body = [sub.visit(s) for s in node.body]
+        node.orelse = [sub.visit(s) for s in node.orelse]
+        return node
+
+
+def _single_assigned(func):
+    """{name: Assign node} for locals bound exactly once in `func`"""
+    cnt = {}
+    for n in walk(func):
+        tg = []
+        if isinstance(n, ast.Assign):
+            for t in n.targets:
+                if isinstance(t, ast.Name):
+                    cnt.setdefault(t.id, []).append(n)
+                else:
+                    tg.append(t)
+        elif isinstance(n, (ast.AugAssign, ast.AnnAssign, ast.For,
+                            ast.NamedExpr)):
+            tg.append(n.target)
+        elif isinstance(n, ast.With):
+            tg += [i.optional_vars for i in n.items
+                   if i.optional_vars is not None]
+        elif isinstance(n, ast.comprehension):
+            tg.append(n.target)
+        elif isinstance(n, ast.ExceptHandler) and n.name:
+            cnt.setdefault(n.name, []).extend([None, None])
+        for t in tg:
+            for nm in names_in(t):
+                cnt.setdefault(nm, []).extend([None, None])
+    for a in func.args.args + func.args.kwonlyargs + func.args.posonlyargs:
+        cnt.setdefault(a.arg, []).extend([None, None])
+    return {k: v[0] for k, v in cnt.items()
+            if len(v) == 1 and v[0] is not None}
+
+
+def _canon_get(func):
+    """``x = D.get(k)`` (x bound once) -> uses of ``x`` become ``D[k]``,
+    ``x is None`` becomes ``k not in D``"""
+    single = _single_assigned(func)
+    todo = {}
+    for name, asg in single.items():
+        v = asg.value
+        if isinstance(v, ast.Call) and isinstance(v.func, ast.Attribute) \
+                and v.func.attr == "get" and len(v.args) == 1 \
+                and not v.keywords and _pure_ref(v.func.value) \
+                and len(asg.targets) == 1:
+            todo[name] = (asg, v.func.value, v.args[0])
+    if not todo:
+        return func
+
+    class T(ast.NodeTransformer):
+        def visit_FunctionDef(self, node):
+            if node is func:
+                self.generic_visit(node)
+            return node
+
+        def visit_Assign(self, node):
+            for name, (asg, d, k) in todo.items():
+                if node is asg:
+                    return ast.copy_location(ast.Pass(), node)
+            self.generic_visit(node)
+            return node
+
+        def visit_Compare(self, node):
+            if len(node.ops) == 1 and isinstance(node.left, ast.Name) \
+                    and node.left.id in todo and isinstance(
+                        node.ops[0], (ast.Is, ast.IsNot)) and isinstance(
+                        node.comparators[0], ast.Constant) \
+                    and node.comparators[0].value is None:
+                _, d, k = todo[node.left.id]
+                op = ast.NotIn() if isinstance(node.ops[0], ast.Is) \
+                    else ast.In()
+                return ast.copy_location(ast.Compare(
+                    left=copy.deepcopy(k), ops=[op],
+                    comparators=[copy.deepcopy(d)]), node)
+            self.generic_visit(node)
+            return node
+
+        def visit_Name(self, node):
+            if isinstance(node.ctx, ast.Load) and node.id in todo:
+                _, d, k = todo[node.id]
+                return ast.copy_location(
+                    _sub(copy.deepcopy(d), copy.deepcopy(k)), node)
+            return node
+    return T().visit(func)
+
+
+def _literal_items(repo, rel, func, it, single):
+    """elements of a literal table `it` iterates over: list of expressions
+    (for ``.items()`` of a dict literal: Tuple(key, value)) or None"""
+    def resolve(e):
+        if isinstance(e, ast.Name):
+            if e.id in single and len(single[e.id].targets) == 1:
+                return single[e.id].value
+            if repo is not None and e.id not in _stores([func]):
+                try:
+                    return repo.module_assign(rel, e.id)
+                except Exception:
+                    return None
+        return e
+    if isinstance(it, ast.Call) and isinstance(it.func, ast.Attribute) \
+            and it.func.attr == "items" and not it.args:
+        d = resolve(it.func.value)
+        if isinstance(d, ast.Dict) and all(k is not None for k in d.keys):
+            return [ast.Tuple(elts=[k, v], ctx=ast.Load())
+                    for k, v in zip(d.keys, d.values)]
+        return None
+    lit = resolve(it)
+    if isinstance(lit, (ast.Tuple, ast.List)) and not any(
+            isinstance(e, ast.Starred) for e in lit.elts):
+        return list(lit.elts)
+    if isinstance(lit, ast.Dict) and all(k is not None for k in lit.keys) \
+            and lit is not it:
+        return list(lit.keys)
+    return None
+
+
+def _unroll(repo, rel, func, limit=40):
+    """``for t in <literal table>: body`` -> body per element"""
+    single = _single_assigned(func)
+
+    def bind(target, elem, mapping):
+        if isinstance(target, ast.Name):
+            mapping[target.id] = elem
+            return True
+        if isinstance(target, (ast.Tuple, ast.List)) and isinstance(
+                elem, (ast.Tuple, ast.List)) and len(target.elts) == len(
+                elem.elts):
+            return all(bind(t, e, mapping)
+                       for t, e in zip(target.elts, elem.elts))
+        return False
+
+    def process(stmts):
+        out = []
+        for st in stmts:
+            for fld in ("body", "orelse", "finalbody"):
+                if hasattr(st, fld) and isinstance(getattr(st, fld), list) \
+                        and not isinstance(st, (ast.FunctionDef,
+                                                ast.ClassDef)):
+                    setattr(st, fld, process(getattr(st, fld)))
+            if isinstance(st, ast.Try):
+                for h in st.handlers:
+                    h.body = process(h.body)
+            if isinstance(st, ast.For) and not st.orelse:
+                elems = _literal_items(repo, rel, func, st.iter, single)
+                tn = names_in(st.target)
+                ok = elems is not None and 0 < len(elems) <= limit \
+                    and not (_stores(st.body) & tn) and not any(
+                        isinstance(n, (ast.Break, ast.Continue))
+                        for s in st.body for n in walk(s))
+                if ok:
+                    copies = []
+                    for el in elems:
+                        mapping = {}
+                        if not bind(st.target, el, mapping):
+                            ok = False
+                            break
+                        sub = _Subst(mapping)
+                        for s in st.body:
+                            c = sub.visit(copy.deepcopy(s))
+                            for n in ast.walk(c):
+                                if hasattr(n, "lineno"):
+                                    n.lineno = st.lineno
+                                    n.end_lineno = st.lineno
+                            copies.append(c)
+                    if ok:
+                        out += copies
+                        continue
+            out.append(st)
+        return out
+    func.body = process(func.body)
+    return func
+
+
+def canon(repo, rel, func, keep=(), depth=2, unroll=True):
+    """copy of `func` with private helpers inlined, ``D.get(k)`` locals,
+    ``.values()/.items()`` iteration, leading walrus tests and loops over literal tables brought
+    to the canonical forms the rules are written against"""
+    new = inline_helpers(repo, rel, func, depth=depth, keep=keep)
+    parent = getattr(new, "parent", None)
+    new = _hoist_walrus(new)
+    new = _canon_get(new)
+    if unroll:
+        new = _unroll(repo, rel, new)
+    t = _DictIter()
+    t._top = None
+    new = t.visit(new)
+    ast.fix_missing_locations(new)
+    link(new)
+    new.parent = parent
+    return new
+
+
+def expand_bool_locals(func, expr, depth=3):
+    """AST of `expr` with locals of `func` that are bound exactly once to a
+    boolean expression (comparison / and / or / not / any-all call) replaced
+    by that expression – named conditions are transparent to predicate
+    evaluation, other locals (keys, bounds, data) stay names"""
+    single = _single_assigned(func)
+
+    def is_bool(v):
+        if isinstance(v, (ast.Compare, ast.BoolOp)):
+            return True
+        if isinstance(v, ast.UnaryOp) and isinstance(v.op, ast.Not):
+            return True
+        return False
+    defs = {k: a.value for k, a in single.items()
+            if len(a.targets) == 1 and is_bool(a.value)}
+    cur = copy.deepcopy(expr)
+    for _ in range(depth):
+        cur = _Subst(defs).visit(cur)
+        if isinstance(cur, ast.Name) and cur.id in defs:
+            cur = copy.deepcopy(defs[cur.id])
+    ast.fix_missing_locations(cur)
+    return link(cur) or cur
+
+
+def _hoist_walrus(func):
+    """``if (x := e) <cmp> …:`` -> ``x = e`` before the ``if`` (only where
+    the named expression is evaluated first and unconditionally)"""
+    def first(e):
+        if isinstance(e, ast.NamedExpr):
+            return e
+        if isinstance(e, ast.Compare):
+            return first(e.left)
+        if isinstance(e, ast.BoolOp):
+            return first(e.values[0])
+        if isinstance(e, ast.UnaryOp):
+            return first(e.operand)
+        return None
+
+    class Repl(ast.NodeTransformer):
+        def __init__(self, ne):
+            self.ne = ne
+
+        def visit_NamedExpr(self, node):
+            if node is self.ne:
+                return ast.copy_location(
+                    ast.Name(id=node.target.id, ctx=ast.Load()), node)
+            return self.generic_visit(node)
+
+    def process(stmts):
+        out = []
+        for st in stmts:
+            for fld in ("body", "orelse", "finalbody"):
+                if hasattr(st, fld) and isinstance(getattr(st, fld), list) \
+                        and not isinstance(st, (ast.FunctionDef,
+                                                ast.ClassDef)):
+                    setattr(st, fld, process(getattr(st, fld)))
+            if isinstance(st, ast.Try):
+                for h in st.handlers:
+                    h.body = process(h.body)
+            if isinstance(st, ast.If):
+                ne = first(st.test)
+                while ne is not None:
+                    out.append(ast.copy_location(ast.Assign(
+                        targets=[ast.Name(id=ne.target.id, ctx=ast.Store())],
+                        value=ne.value), st))
+                    st.test = Repl(ne).visit(st.test)
+                    ne = first(st.test)
+            out.append(st)
+        return out
+    func.body = process(func.body)
+    return func
